@@ -277,7 +277,8 @@ def main():
     order = variant.get("import_order") or SUBPACKAGES
     t_start = time.monotonic()
     try:
-        server = Server(import_order=order, cache_dir=job.get("cache_dir"), variant=variant)
+        server = Server(import_order=order, cache_dir=job.get("cache_dir"), variant=variant,
+                        peer_cache_dirs=job.get("peer_cache_dirs"))
     except Exception as e:  # import failure of the tree etc.
         print(json.dumps({"type": "harness_error", "what": "server start: %r" % (e,)}))
         sys.stdout.flush()
@@ -338,6 +339,26 @@ def main():
         except Exception:
             import traceback
             line["harness_error"] = traceback.format_exc()[-2000:]
+        if server.h9_mismatches:
+            mm = server.h9_mismatches.pop(0)
+            del server.h9_mismatches[:]
+            doc = {"format": 1, "property": "C20", "scenario": "golden-variants",
+                   "server": dict(variant), "request": mm["req"],
+                   "violation": {"invariant": "H9", "kind": "process-lifetime",
+                                 "function": ".".join(str(x) for x in mm["req"]["fn"]),
+                                 "task": None, "op": None,
+                                 "detail": {"here": C.cjson(mm["here"])[:300],
+                                            "there": C.cjson(mm["there"])[:300],
+                                            "there_by": mm["there_by"],
+                                            "what": "the same call evaluated alone gives "
+                                                    "different results in two process variants"}}}
+            os.makedirs(job["replay_dir"], exist_ok=True)
+            path = os.path.join(job["replay_dir"], "C20-%d-%d-H9.json" % (seed, index))
+            with open(path, "w") as f:
+                json.dump(doc, f, indent=1)
+            line["violation"] = doc["violation"]
+            line["replay"] = path
+            line["reproduced"] = True
         print(json.dumps(line))
         sys.stdout.flush()
     print(json.dumps({"type": "bye", "server_stats": server.stats,
